@@ -307,7 +307,7 @@ theorem getValueAt_solid (w : World) (top : Str) (p : KeyPath) (v : PV)
 
 /-! ### `resolve_foreign_key` -/
 
-theorem resolveB_isEmpty (orc : Oracle) (w : World) (dflt : Str) (fuel : Nat) (vis : List KeyId) (phys : KeyId)
+theorem resolveB_isEmpty (orc : Oracle) (w : World) (dflt : Fallbacks) (fuel : Nat) (vis : List KeyId) (phys : KeyId)
     (top : Str) (bs bs' : List (Range × PV)) (h : resolveB orc w dflt fuel vis phys top bs = .ok bs') :
     bs'.isEmpty = bs.isEmpty := by
   cases fuel with
@@ -322,36 +322,36 @@ theorem resolveB_isEmpty (orc : Oracle) (w : World) (dflt : Str) (fuel : Nat) (v
       split at h <;> try (simp at h; done)
       simp only [Res.ok.injEq] at h; subst h; rfl
 
-theorem resolvePV_dflt (orc : Oracle) (w : World) (dflt : Str) (fuel : Nat) (vis : List KeyId) (phys : KeyId)
+theorem resolvePV_dflt (orc : Oracle) (w : World) (dflt : Fallbacks) (fuel : Nat) (vis : List KeyId) (phys : KeyId)
     (top : Str) (v : PV) (h : resolvePV orc w dflt fuel vis phys top .dflt = .ok v) : v = .dflt := by
   cases fuel with
   | zero => simp [resolvePV] at h
   | succ fuel => simp [resolvePV] at h; exact h.symm
 
-theorem resolvePV_subkeys (orc : Oracle) (w : World) (dflt : Str) (fuel : Nat) (vis : List KeyId) (phys : KeyId)
+theorem resolvePV_subkeys (orc : Oracle) (w : World) (dflt : Fallbacks) (fuel : Nat) (vis : List KeyId) (phys : KeyId)
     (top : Str) (l : Option Loc) (v : PV) (h : resolvePV orc w dflt fuel vis phys top (.subkeys l) = .ok v) :
     v = .subkeys l := by
   cases fuel with
   | zero => simp [resolvePV] at h
   | succ fuel => simp [resolvePV] at h; exact h.symm
 
-def ResSolid (orc : Oracle) (w : World) (dflt : Str) (fuel : Nat) : Prop :=
+def ResSolid (orc : Oracle) (w : World) (dflt : Fallbacks) (fuel : Nat) : Prop :=
   (∀ vis phys top pv v, resolvePV orc w dflt fuel vis phys top pv = .ok v → Solid pv = true → Solid v = true) ∧
-  (∀ vis phys top target args mj v, resolveNode orc w dflt fuel vis phys top target args mj = .ok v →
+  (∀ vis phys top target args v, resolveNode orc w dflt fuel vis phys top target args = .ok v →
     SolidK args = true → Solid v = true) ∧
   (∀ vis phys top l l', resolveL orc w dflt fuel vis phys top l = .ok l' → SolidL l = true → SolidL l' = true) ∧
   (∀ vis phys top l l', resolveB orc w dflt fuel vis phys top l = .ok l' → SolidB l = true → SolidB l' = true) ∧
   (∀ vis phys top l l', resolveF orc w dflt fuel vis phys top l = .ok l' → SolidF l = true → SolidF l' = true) ∧
   (∀ vis phys top l l', resolveArgs orc w dflt fuel vis phys top l = .ok l' → SolidK l = true → SolidK l' = true)
 
-theorem resolve_solid (orc : Oracle) (w : World) (dflt : Str) (hw : WorldSolid w.nss) :
+theorem resolve_solid (orc : Oracle) (w : World) (dflt : Fallbacks) (hw : WorldSolid w.nss) :
     ∀ fuel, ResSolid orc w dflt fuel := by
   intro fuel
   induction fuel with
   | zero =>
     refine ⟨?_, ?_, ?_, ?_, ?_, ?_⟩
     · intro vis phys top pv v h; simp [resolvePV] at h
-    · intro vis phys top target args mj v h; simp [resolveNode] at h
+    · intro vis phys top target args v h; simp [resolveNode] at h
     · intro vis phys top l l' h; simp [resolveL] at h
     · intro vis phys top l l' h; simp [resolveB] at h
     · intro vis phys top l l' h; simp [resolveF] at h
@@ -371,7 +371,7 @@ theorem resolve_solid (orc : Oracle) (w : World) (dflt : Str) (hw : WorldSolid w
         | notSet target args =>
           simp only [resolvePV] at h
           simp only [Solid] at hf
-          exact iNode _ _ _ _ _ _ _ h hf
+          exact iNode _ _ _ _ _ _ h hf
       | comp k inner =>
         simp only [resolvePV] at h
         simp only [Solid] at hf
@@ -404,16 +404,13 @@ theorem resolve_solid (orc : Oracle) (w : World) (dflt : Str) (hw : WorldSolid w
         simp only [Res.ok.injEq] at h; subst h
         simp only [Solid, Bool.and_eq_true]
         exact ⟨iPV _ _ _ _ _ ho hf.1, iF _ _ _ _ _ hfs hf.2⟩
-    · intro vis phys top target args mj v h ha
+    · intro vis phys top target args v h ha
       simp only [resolveNode] at h
       split at h
       · simp at h
       · simp at h
-      · simp at h
-      · split at h
-        · simp at h
-        · exact iNode _ _ _ _ _ _ _ h ha
-      · rename_i value _ hval
+      · rename_i src value hfd
+        obtain ⟨hval, hnd⟩ := Check.findDefining_stored w dflt _ _ _ _ _ _ hfd
         split at h
         · simp at h
         · split at h <;> try (simp at h; done)
@@ -426,12 +423,7 @@ theorem resolve_solid (orc : Oracle) (w : World) (dflt : Str) (hw : WorldSolid w
           simp only [Solid]
           have h2 := iA _ _ _ _ _ ha' ha
           rcases solidV_cases' value (getValueAt_solid w _ _ _ hw hval) with hd | ⟨l, hl, _⟩ | hs
-          · subst hd
-            rw [resolvePV_dflt _ _ _ _ _ _ _ _ hv'] at hp
-            simp [populate] at hp
-            subst hp
-            rename_i hnd
-            exact absurd rfl (hnd)
+          · exact absurd hd hnd
           · subst hl
             rw [resolvePV_subkeys _ _ _ _ _ _ _ _ _ hv'] at hp
             simp [populate] at hp
@@ -493,7 +485,7 @@ theorem resolve_solid (orc : Oracle) (w : World) (dflt : Str) (hw : WorldSolid w
         exact ⟨iPV _ _ _ _ _ hx hf.1, iA _ _ _ _ _ hxs hf.2⟩
 
 /-- what is stored back by `resolveAt`: a stored value stays storable -/
-theorem resolvePV_solidV (orc : Oracle) (w : World) (dflt : Str) (hw : WorldSolid w.nss) (fuel : Nat)
+theorem resolvePV_solidV (orc : Oracle) (w : World) (dflt : Fallbacks) (hw : WorldSolid w.nss) (fuel : Nat)
     (vis : List KeyId) (phys : KeyId) (top : Str) (v v' : PV)
     (h : resolvePV orc w dflt fuel vis phys top v = .ok v') (hv : SolidV v = true) : SolidV v' = true := by
   rcases solidV_cases' v hv with hd | ⟨l, hl, _⟩ | hs
@@ -548,7 +540,7 @@ theorem setValueAt_solid (w : World) (top : Str) (p : KeyPath) (v : PV) (hw : Wo
     · exact this
   · exact hw ns0 h0 l hl
 
-theorem resolveAt_solid (orc : Oracle) (dflt : Str) (fuel : Nat) (locale : Str) (p : KeyPath) (w w' : World) (b : Bool)
+theorem resolveAt_solid (orc : Oracle) (dflt : Fallbacks) (fuel : Nat) (locale : Str) (p : KeyPath) (w w' : World) (b : Bool)
     (h : resolveAt orc dflt fuel locale p w = .ok (w', b)) (hw : WorldSolid w.nss) : WorldSolid w'.nss := by
   unfold resolveAt at h
   split at h
@@ -565,7 +557,7 @@ theorem resolveAt_solid (orc : Oracle) (dflt : Str) (fuel : Nat) (locale : Str) 
       exact setValueAt_solid w _ _ _ hw
         (resolvePV_solidV orc w dflt hw fuel _ _ _ _ _ hr (getValueAt_solid w _ _ _ hw hv))
 
-theorem resolveAll_solid (orc : Oracle) (dflt : Str) (fuel : Nat) :
+theorem resolveAll_solid (orc : Oracle) (dflt : Fallbacks) (fuel : Nat) :
     ∀ (paths : List (Str × KeyPath)) (w w' : World), resolveAll orc dflt fuel paths w = .ok w' →
       WorldSolid w.nss → WorldSolid w'.nss
   | [], w, w', h, hw => by simp [resolveAll] at h; rw [← h]; exact hw
